@@ -686,6 +686,16 @@ Inv_C09_StillReports ==
               => CondTrue(PE.status.cr, "Paused")
        /\ IsPhaseActor(PE.actor) => CondTrue(PE.status.cr, "Paused")
 
+\* ... whatever the state of the listed objects (missing ones included): with every API call answered, a paused pass
+\* does not fail - a failing pass reports nothing (a slice that cannot be read is the one input error a pass has)
+\* (the pass that creates an ObjectSetPhase object always ends with the stale NotFound of the lookup before the create -
+\* remotephase_reconciler.go returns `err` of the Get after a successful Create - and is retried: observation O9)
+Inv_C09_PausedPassCompletes ==
+    (PassEnded /\ PausedPass(PE) /\ ~PE.apiErr /\ PE.sliceMissing = {} /\ ~(\E i \in DOMAIN PE.phw : PE.phw[i][2] = "Create")
+       \* a revision number cannot be computed while a declared previous revision is gone: the other input error
+       /\ ~(PE.snap.cr.revision = 0 /\ [ id |-> "", uid |-> "", remote |-> <<>> ] \in PE.prev))
+    => W.res = "ok"
+
 \* pause reaches delegated phases: after an error-free pass of an ObjectSet, every phase object the pass has read and
 \* that the ObjectSet controls carries spec.paused = the ObjectSet's own pause state (so the phase controller is hands-off
 \* exactly while the ObjectSet is paused).  Reached(j): the phase loop got to phase j (all earlier phases passed).
